@@ -119,6 +119,19 @@ Theorem C16_crc_burst32 : forall encrypted xs base_iv, keystream_ok xs ->
 Proof. intros encrypted xs base_iv (H1 & H2 & H3). exact (safe_read_kv_burst encrypted xs base_iv H1 H2 H3). Qed.
 Print Assumptions C16_crc_burst32.
 
+(* OUTSIDE the key|value region the checksum is not reached in time: one flipped bit in the
+   value-length byte of an intact record (expiry 0x65FFFFFF) makes safeRead.Entry panic
+   (uint32 klen+vlen wraps, e.Key = buf[:h.klen] out of range) — the implementation panics on
+   the same bytes (harness case IterHeaderFlipPanic).  Reported as a finding; the property text
+   speaks of altered key or value bytes only. *)
+Theorem C16_header_bitflip_panic_witness :
+  wf_plain ex_hdr /\
+  iterate false xs_id [] (encode_entry false xs_id [] ex_hdr 20) 20
+    = ([mkDel ex_hdr 20 (rec_size ex_hdr)], Done (20 + rec_size ex_hdr)) /\
+  iterate false xs_id [] (flip_bit7 (encode_entry false xs_id [] ex_hdr 20) 3) 20 = ([], Panic).
+Proof. exact header_bitflip_panic_witness. Qed.
+Print Assumptions C16_header_bitflip_panic_witness.
+
 (* the CRC facts used: the LFSR step is linear and injective on 32-bit states, and any change
    within a 32-bit window of a message changes crc32c *)
 Theorem C16_crc_step_injective : forall a b, a < two32 -> b < two32 -> crc_shift a = crc_shift b -> a = b.
